@@ -87,6 +87,12 @@ func init() {
 			return fmtScore(eval.Max(parseScore(a[1]), parseScore(a[2])))
 		case "min":
 			return fmtScore(eval.Min(parseScore(a[1]), parseScore(a[2])))
+		case "heur": // the constructor itself: every float32 (the infinities included; NaN is outside) is kept as it is
+			k, _ := strconv.ParseInt(a[1], 10, 64)
+			return fmtScore(eval.HeuristicScore(keyF32(k)))
+		case "mate":
+			k, _ := strconv.Atoi(a[1])
+			return fmtScore(eval.MateInXScore(int8(k)))
 		case "dist":
 			d, ok := parseScore(a[1]).MateDistance()
 			if !ok {
@@ -124,18 +130,22 @@ func init() {
 	register("score", genScore)
 }
 
-func scorePool(r *rand.Rand) []eval.Score {
-	pool := []eval.Score{eval.InfScore, eval.NegInfScore, eval.InvalidScore}
-	for m := -128; m <= 127; m++ {
-		pool = append(pool, eval.MateInXScore(int8(m)))
-	}
+func scoreFloats(r *rand.Rand) []float32 {
 	floats := []float32{0, float32(math.Copysign(0, -1)), 1, -1, 0.5, -0.5, 3, -3, 100, -100, 103, -103, 1e-45, -1e-45,
 		1.17549435e-38, -1.17549435e-38, math.MaxFloat32, -math.MaxFloat32, float32(math.Inf(1)), float32(math.Inf(-1)),
 		0.01, -0.01, 9.99, -9.99, 2.5, -2.5, 1e10, -1e10}
 	for i := 0; i < 12; i++ {
 		floats = append(floats, float32(r.NormFloat64()*10))
 	}
-	for _, f := range floats {
+	return floats
+}
+
+func scorePool(r *rand.Rand) []eval.Score {
+	pool := []eval.Score{eval.InfScore, eval.NegInfScore, eval.InvalidScore}
+	for m := -128; m <= 127; m++ {
+		pool = append(pool, eval.MateInXScore(int8(m)))
+	}
+	for _, f := range scoreFloats(r) {
 		pool = append(pool, eval.HeuristicScore(eval.Pawns(f)))
 	}
 	return pool
@@ -150,6 +160,16 @@ func genScore(o *Out, r *rand.Rand, thorough bool) {
 			o.do("score " + op + " " + sa)
 		}
 		o.Count("unary")
+	}
+	// the constructors (the pool above is spelled field by field in the op lines, so a constructor that alters its argument
+	// would go unseen there)
+	for _, f := range scoreFloats(r) {
+		o.do(fmt.Sprintf("score heur %d", f32key(eval.Pawns(f))))
+		o.Count("constructor:heuristic")
+	}
+	for m := -128; m <= 127; m++ {
+		o.do(fmt.Sprintf("score mate %d", m))
+		o.Count("constructor:mate")
 	}
 	for _, a := range pool {
 		sa := fmtScore(a)
